@@ -44,15 +44,30 @@ PUBLIC = -1          # owner code of objects stored under the ALLOW_ALL operatio
 
 
 def open_policies():
-    """The built-in policies plus 'open': every client may perform every operation (so that sessions of different
-    identities act on the same objects)."""
+    """The built-in policies plus 'open' (every client may perform every operation, with or without the group 'ops') and
+    'grouped' (preset: the built-in owner-only rules; members of the group 'ops': everything)."""
     pol = copy.deepcopy(core_policy.policies)
-    o = copy.deepcopy(pol['default'])
-    for ot, ops in o['preset'].items():
+    everything = copy.deepcopy(pol['default']['preset'])
+    for ot, ops in everything.items():
         for op in ops:
             ops[op] = enums.Policy.ALLOW_ALL
-    pol['open'] = o
+    pol['open'] = {'preset': copy.deepcopy(everything), 'groups': {'ops': copy.deepcopy(everything)}}
+    pol['grouped'] = {'preset': copy.deepcopy(pol['default']['preset']), 'groups': {'ops': copy.deepcopy(everything)}}
     return pol
+
+
+GROUPS = [None, ['ops'], []]          # group code g = index: no group information / member of 'ops' / empty group list
+
+
+def allowed(owner_code, user_code, g):
+    """What the operation policies say (python twin of Interleave.allowed; used by the direct oracle only)."""
+    if g == 2:
+        return False
+    if owner_code == PUBLIC:
+        return True
+    if owner_code <= -100:
+        return g == 1 or user_code == -100 - owner_code
+    return g == 0 and user_code == owner_code
 
 
 QF = enums.QueryFunction
@@ -350,6 +365,9 @@ def prepopulate(eng, prepop):
         if kind == 'shared':
             r = eng.request([kdrv.create(names=[nm], extra=[kdrv.attr(AT.OPERATION_POLICY_NAME, 'open')])], user=user)
             store0.append((int(r['items'][0]['payload']['unique_identifier']), PUBLIC, 1))
+        elif kind == 'grouped':
+            r = eng.request([kdrv.create(names=[nm], extra=[kdrv.attr(AT.OPERATION_POLICY_NAME, 'grouped')])], user=user)
+            store0.append((int(r['items'][0]['payload']['unique_identifier']), -100 - dict(USERS)[user], 1))
         else:
             r = eng.request([kdrv.create()], user=user)
             store0.append((int(r['items'][0]['payload']['unique_identifier']), dict(USERS)[user], 1))
@@ -360,13 +378,14 @@ def final_store_of(eng):
     dump = eng.dump()
     state = {r['uid']: r['state'] for r in dump.get('crypto_objects', [])}
     codes = dict(USERS)
-    return sorted((r['uid'], PUBLIC if r['operation_policy_name'] == 'open' else codes.get(r['owner'], 0), state.get(r['uid'], 0))
+    return sorted((r['uid'], PUBLIC if r['operation_policy_name'] == 'open' else
+                   (-100 - codes.get(r['owner'], 0) if r['operation_policy_name'] == 'grouped' else codes.get(r['owner'], 0)), state.get(r['uid'], 0))
                   for r in dump.get('managed_objects', []))
 
 
-def one_at_a_time_reference(ctx, name, prepop, users, versions, queues, entries):
+def one_at_a_time_reference(ctx, name, prepop, users, versions, queues, entries, groups):
     """The same requests in the same order of entry, served strictly one at a time by a second engine, EACH REQUEST IN A
-    THREAD OF ITS OWN (nothing a thread, connection or session may have kept from an earlier request can play a part).
+    THREAD OF ITS OWN and by an ENGINE OBJECT OF ITS OWN (restart on the same database before every request).
     -> (responses in that order, final store)."""
     eng = kdrv.Engine(workdir=str(ctx.work / (name + '_ref')), policies=open_policies())
     try:
@@ -378,10 +397,14 @@ def one_at_a_time_reference(ctx, name, prepop, users, versions, queues, entries)
             pos[t] += 1
             m = eng.build(build_items(queues[t][i]), version=versions[t])
             box = {}
+            # a FRESH engine object on the same database for every request: nothing the engine object may have kept from an
+            # earlier request (identity, groups, placeholder, sessions) can play a part
+            eng.engine._data_store.dispose()
+            eng.restart()
 
             def one():
                 try:
-                    box['r'] = eng.engine.process_request(m, (users[t][0], None))
+                    box['r'] = eng.engine.process_request(m, (users[t][0], copy.deepcopy(groups[t])))
                 except Exception as e:  # noqa
                     box['e'] = repr(e)
             th = threading.Thread(target=one)
@@ -405,13 +428,17 @@ def concurrent_run(ctx, name, rng, n_clients, n_req, with_error_responses=True, 
         versions[0] = (1, 0) if versions[0] != (1, 0) else (2, 0)
     if fixed is not None:
         versions = list(fixed[0])
+    gcodes = [rng.choice([0, 0, 0, 1, 1, 2]) for _ in users]
+    if fixed is not None:
+        gcodes = list(fixed[2]) if len(fixed) > 2 else [0] * n_clients
+    groups = [copy.deepcopy(GROUPS[g]) for g in gcodes]
     # sequential preparation (part of the model's initial store): two named objects under the ALLOW_ALL policy that
     # every client may read and change, then a few objects owned by each client
-    prepop = [('alice', 'shared', 'shared-%d' % k) for k in range(2)]
+    prepop = [('alice', 'shared', 'shared-%d' % k) for k in range(2)] + [('alice', 'grouped', 'grouped-0')]
     for (user, code) in users:
         prepop += [(user, 'own', None)] * rng.randint(1, 3)
     store0 = prepopulate(eng, prepop)
-    shared = [u for u, c, _ in store0 if c == PUBLIC]
+    shared = [u for u, c, _ in store0 if c == PUBLIC or c <= -100]
     known = [u for u, _, _ in store0]
     queues = [gen_queue(rng, n_req, known, len(store0) + n_clients * n_req, shared) for _ in users]
     if fixed is not None:
@@ -430,7 +457,7 @@ def concurrent_run(ctx, name, rng, n_clients, n_req, with_error_responses=True, 
 
     def client(t):
         tid_of[threading.get_ident()] = t
-        cred = (users[t][0], None)
+        cred = (users[t][0], groups[t])
         start.wait()
         for i, m in enumerate(msgs[t]):
             if sequential is not None:
@@ -467,7 +494,10 @@ def concurrent_run(ctx, name, rng, n_clients, n_req, with_error_responses=True, 
     finally:
         sys.setswitchinterval(old)
     eng.engine.__class__ = engine_mod.KmipEngine
-    desc = {'run': name, 'seed': ctx.seed, 'clients': [{'user': u, 'version': v, 'requests': q} for (u, _), v, q in zip(users, versions, queues)]}
+    desc = {'run': name, 'seed': ctx.seed, 'clients': [{'user': u, 'groups': g, 'version': v, 'requests': q}
+                                                      for (u, _), g, v, q in zip(users, groups, versions, queues)],
+            'objects_before': [{'uid': u, 'policy': 'open' if c == PUBLIC else ('grouped (preset owner only, group ops everything), owner %d' % (-100 - c) if c <= -100 else 'default, owner %d' % c)}
+                               for u, c, _ in store0]}
     if any(th.is_alive() for th in ths):
         ctx.violation({'class': 'deadlock'}, desc, 'client threads did not finish')
         return None, None
@@ -521,15 +551,16 @@ def concurrent_run(ctx, name, rng, n_clients, n_req, with_error_responses=True, 
                     last_created = o[2]
                 if sp[0] in ('get', 'attrlist', 'activate', 'destroy', 'getstate'):
                     target = sp[1] if sp[1] is not None else last_created
-                    if o[1] == 0 and owner.get(o[2]) not in (me, PUBLIC):
+                    if o[1] == 0 and o[2] in owner and not allowed(owner[o[2]], me, gcodes[t]):
                         ctx.violation({'class': 'identity-crossed', 'op': sp[0]}, w,
-                                      'client %s was served %s on object %s owned by %s' % (users[t][0], sp[0], o[2], owner.get(o[2])))
+                                      'client %s (groups %r) was served %s on object %s (owner/policy code %s) which the operation policy does '
+                                      'not let it use' % (users[t][0], groups[t], sp[0], o[2], owner.get(o[2])))
                     if o[1] == 0 and target is not None and o[2] != target:
                         ctx.violation({'class': 'placeholder-crossed', 'op': sp[0]}, w,
                                       '%s addressed object %s but the answer is about %s' % (sp[0], target, o[2]))
-                    if o[1] == 2 and sp[0] in ('get', 'attrlist', 'getstate') and owner.get(target) in (me, PUBLIC):
+                    if o[1] == 2 and sp[0] in ('get', 'attrlist', 'getstate') and target in owner and allowed(owner[target], me, gcodes[t]):
                         ctx.violation({'class': 'identity-crossed', 'op': sp[0], 'direction': 'denied-own'}, w,
-                                      'client %s was denied %s on its own object %s' % (users[t][0], sp[0], target))
+                                      'client %s (groups %r) was denied %s on object %s which the operation policy lets it use' % (users[t][0], groups[t], sp[0], target))
                 if sp[0] in ('query', 'discover'):
                     # read-only answers that depend on the session's version: compare with the same request served alone,
                     # under this session's own version, by a fresh engine
@@ -567,7 +598,7 @@ def concurrent_run(ctx, name, rng, n_clients, n_req, with_error_responses=True, 
         r = results[t][i]
         responses.append(project_response(r[0], queues[t][i]) if r else [])
     if reference:
-        ref_resp, ref_final = one_at_a_time_reference(ctx, name, prepop, users, versions, queues, entries)
+        ref_resp, ref_final = one_at_a_time_reference(ctx, name, prepop, users, versions, queues, entries, groups)
         ctx.count('reference.runs')
         pos2 = [0] * n_clients
         for k, t in enumerate(entries):
@@ -589,7 +620,7 @@ def concurrent_run(ctx, name, rng, n_clients, n_req, with_error_responses=True, 
                               'the final store differs from the one left by serving the same requests one at a time in order of entry')
     sh0 = '(mkShared 0 12 12 0 false None [%s] %s)' % ('; '.join('(mkObj %s %s %s)' % (cp.z(u), cp.z(c), cp.z(s)) for u, c, s in store0), cp.z(len(store0) + 1))
     case = 'CRun [%s] %s [%s] [%s] [%s] [%s] %s' % (
-        '; '.join(cp.z(c) for _, c in users), sh0,
+        '; '.join(cp.z(c * 10 + g) for (_, c), g in zip(users, gcodes)), sh0,
         '; '.join('[%s]' % '; '.join(coq_req(versions[t], spec) for spec in queues[t]) for t in range(n_clients)),
         '; '.join(cp.nat(t) for t in entries),
         '; '.join('[%s]' % '; '.join('(%s, %s, %s, %s)' % tuple(cp.z(x) for x in o) for o in resp) for resp in responses),
@@ -1120,8 +1151,14 @@ def run(ctx):
            ('rmr1', [(2, 0), (1, 0)], [B_q, A_q], [0, 1, 0, 0, 1, 0, 1, 0, 1, 0, 0]),
            ('rmr2', [(1, 2), (1, 4), (1, 1)], [A_q, B_q, [[('getstate', 'S0')], [('getstate', 'S0')], [('getstate', 'S1')], [('getstate', 'S1')]]],
             [1, 2, 0, 1, 2, 1, 1, 0, 1, 2, 0, 1, 0, 2, 1])]
-    for nm, vs, qs, order in rmr:
-        c, m = concurrent_run(ctx, nm, ctx.subrng(nm), len(vs), 0, fixed=(vs, qs), sequential=order)
+    # identities with and without group lists under a policy whose group section grants more than its preset section,
+    # strictly alternating: (bob, ['ops']) may use alice's object, (carol, None) and (dave, []) may not
+    G_q = [[('getstate', 'S2')], [('get', 'S2')], [('getstate', 'S2')], [('get', 'S0')]]
+    rmr.append(('grp0', [(1, 2)] * 4, [G_q] * 4, [1, 2, 1, 3, 0, 2, 3, 1, 0, 2, 1, 3, 0, 2, 3, 0], [0, 1, 0, 2]))
+    rmr.append(('grp1', [(1, 2), (1, 4), (1, 2)], [G_q] * 3, [1, 2, 0, 1, 2, 0, 2, 1, 0, 2, 1, 0], [2, 1, 0]))
+    for plan in rmr:
+        nm, vs, qs, order = plan[:4]
+        c, m = concurrent_run(ctx, nm, ctx.subrng(nm), len(vs), 0, fixed=(vs, qs) + ((plan[4],) if len(plan) > 4 else ()), sequential=order)
         if c is not None:
             cases.append(c)
             meta.append(m)
